@@ -262,6 +262,28 @@ func cowCase(c *Ctx, id, stack string, items []string, prop string) {
 					break
 				}
 			}
+			// one entry, a Seek to the start, then the rest: whether or not the Seek rewinds the
+			// listing, no name of the view is lost
+			if fh4, err := in.Top.Fs.Open(d); err == nil {
+				a, _ := fh4.Readdirnames(1)
+				fh4.Seek(0, 0)
+				b, _ := fh4.Readdirnames(-1)
+				fh4.Close()
+				seen := map[string]bool{}
+				for _, x := range append(a, b...) {
+					seen[x] = true
+				}
+				for _, w := range want {
+					if !seen[w] {
+						failed = true
+						c.Oracle("FAIL %s listing:pages:seek-start dir %s after step %d: Readdirnames(1) = %q, Seek(0, 0), Readdirnames(-1) = %q: %q is in neither; want [%s]", id, d, i, a, b, w, strings.Join(want, ","))
+						break
+					}
+				}
+				if failed {
+					break
+				}
+			}
 			// reading everything at once, then again: the second read finds nothing left
 			if fh2, err := in.Top.Fs.Open(d); err == nil {
 				first, _ := fh2.Readdir(-1)
